@@ -21,7 +21,9 @@ def _class(r):
 
 
 def _stats(cases, recs):
-    """Measured coverage of the replayed behaviours (vacuity guard)."""
+    """Coverage of the replayed behaviours (vacuity guard). The classes are
+    those of the behaviours TLC generated (the specification's own values), so
+    the guard does not depend on what the implementation did with them."""
     rd = [r for r in recs if r["k"] == "round"]
     ex = [r for r in rd if r["exact"] and r["haslog"]]
     s = dict(
@@ -29,27 +31,33 @@ def _stats(cases, recs):
         boot_refused=sum(r["k"] == "boot" and r["refused"] for r in recs),
         round_records=len(rd), exact_round_records=len(ex),
         inexact_round_records=len(rd) - len(ex),
-        both_contribute=sum(_class(r) == "both" for r in ex),
-        ref_only=sum(_class(r) == "ref-only" for r in ex),
-        peer_only=sum(_class(r) == "peer-only" for r in ex),
-        peer_within_cutoff=sum(r["cfg"]["npeer"] != 0 and abs(r["po"]) <= r["cfg"]["cutoff"] for r in ex),
-        peer_at_cutoff=sum(r["cfg"]["npeer"] != 0 and abs(r["po"]) == r["cfg"]["cutoff"] and r["po"] != 0 for r in ex),
-        ref_clamped=sum(r["rc"] != r["ro"] for r in ex),
-        peer_clamped=sum(r["pc"] != r["po"] for r in ex),
-        clamped_negative=sum((r["rc"] != r["ro"] and r["ro"] < 0) or (r["pc"] != r["po"] and r["po"] < 0) for r in ex),
         int64_extreme_runs=sum(r["emb"] >= 4 for r in rd),
-    )
+        boot_cases_stated_inadmissible=sum(c["kind"] == "boot" and c["stated"] for c in cases),
+        boot_cases_admissible=sum(c["kind"] == "boot" and not c["refused"] for c in cases))
     kinds = {"ok": 0, "err": 0, "late": 0, "never": 0}
-    stale = 0
+    cl = dict(both_contribute=0, ref_only=0, peer_only=0, peer_within_cutoff=0, peer_at_cutoff=0,
+              ref_clamped=0, peer_clamped=0, clamped_negative=0, rounds_with_stale_ref_slots=0, rounds=0)
     for c in cases:
+        cf = c["cfg"]
         for i, m in enumerate(c["rounds"]):
+            cl["rounds"] += 1
             for o in m["ref"] + m["peer"]:
                 kinds[o["k"]] += 1
+            ref = cf["nref"] != 0
+            peer = cf["npeer"] != 0 and abs(m["po"]) > cf["cutoff"]
+            cl["both_contribute"] += ref and peer
+            cl["ref_only"] += ref and not peer
+            cl["peer_only"] += peer and not ref
+            cl["peer_within_cutoff"] += cf["npeer"] != 0 and not peer
+            cl["peer_at_cutoff"] += cf["npeer"] != 0 and abs(m["po"]) == cf["cutoff"] and m["po"] != 0
+            cl["ref_clamped"] += m["rc"] != m["ro"]
+            cl["peer_clamped"] += m["pc"] != m["po"]
+            cl["clamped_negative"] += (m["rc"] != m["ro"] and m["ro"] < 0) or (m["pc"] != m["po"] and m["po"] < 0)
             nok = sum(o["k"] == "ok" for o in m["ref"])
-            if i > 0 and 0 < len(m["ref"]) and nok < len(m["ref"]) and any(v != 0 for v in c["rounds"][i - 1]["rs"][nok:]):
-                stale += 1
+            if i > 0 and nok < len(m["ref"]) and any(v != 0 for v in c["rounds"][i - 1]["rs"][nok:]):
+                cl["rounds_with_stale_ref_slots"] += 1
+    s.update({k: int(v) for k, v in cl.items()})
     s["outcomes"] = kinds
-    s["rounds_with_stale_ref_slots"] = stale
     return s
 
 
@@ -131,7 +139,8 @@ def run(ctx):
     st = _stats(cases, recs)
     ctx.log("coverage: %s" % st)
     for k in ("both_contribute", "ref_only", "peer_only", "peer_within_cutoff", "ref_clamped", "peer_clamped",
-              "clamped_negative", "boot_refused", "int64_extreme_runs", "rounds_with_stale_ref_slots"):
+              "clamped_negative", "peer_at_cutoff", "boot_cases_stated_inadmissible", "boot_cases_admissible",
+              "int64_extreme_runs", "rounds_with_stale_ref_slots"):
         if st[k] == 0 and not ctx.violations:
             raise vlib.Inconclusive("vacuous run: no recorded round of class %s" % k)
     obs = []
